@@ -500,6 +500,12 @@ func (e *Exec) applyHavoc(st *State, h *hctx, fn *ssa.Function, resType types.Ty
 			hs := e.heapSort[k.loc.key]
 			st.Heaps[k.loc.key] = smt.Store(e.heap(st, k.loc.key, hs), k.loc.addr, k.val)
 		}
+		// ghosts the contract lists next to `all` (local ghosts, which an unknown callee leaves alone)
+		for _, l := range h.frame.locs {
+			if strings.HasPrefix(l.key, "G|") && l.key != "G|*" {
+				st.Ghost[l.key] = e.fresh("g."+l.key[2:], ghostSort(l.key[2:]))
+			}
+		}
 	} else {
 		saveSpec := e.spec
 		e.spec = 0
